@@ -18,7 +18,7 @@ std::string sid_name(int i){ static const char *n[] = {"0123456789abcdef01234567
 std::string path_of(const std::string &sid){ return std::string(DIR_) + "/" + sid; }
 
 struct Saved { int64_t deadline; std::string val; };
-struct SidModel { bool present = false; Saved cur; std::vector<Saved> all; bool garbage = false; bool garbage_gc_must_remove = false; };
+struct SidModel { bool present = false; Saved cur; std::vector<Saved> all; bool garbage = false; bool garbage_gc_must_remove = false; bool unsure = false; };   // unsure: a save failed half-way (disk error): the file holds whatever it holds
 
 std::string make_payload(int kind,int len,int opidx,const std::string &prev){
 	if(len < 0) len = 0; if(len > 200000) len = 200000;
@@ -46,7 +46,7 @@ struct E7 : Engine {
 		auto pick_len = [&]()->int { unsigned x = r.below(10); if(x < 6) return lens[r.below(20)]; if(x < 9) return (int)r.below(3000); return thorough ? (int)r.below(20000) : (int)r.below(6000); };
 		J ops = J::arr(); int n = r.below(7);
 		for(int i=0;i<n;i++){ J o = J::obj(); unsigned x = r.below(100);
-			if(x < 40){ o["op"] = "save"; o["sid"] = (int)r.below(2); o["len"] = pick_len(); o["dl"] = r.below(6)==0 ? -(int)r.below(3) : 1 + (int)r.below(20); o["fill"] = (int)r.below(6); }
+			if(x < 40){ o["op"] = "save"; o["sid"] = (int)r.below(2); o["len"] = pick_len(); o["dl"] = r.below(6)==0 ? -(int)r.below(3) : 1 + (int)r.below(20); o["fill"] = (int)r.below(6); if(r.below(8) == 0){ o["disk"] = r.below(3) ? 1 : 2; o["skip"] = (int)r.below(3); } }   /* disk 1: full (ENOSPC), 2: I/O error - at the skip-th write() of this save */
 			else if(x < 60){ o["op"] = "load"; o["sid"] = (int)r.below(2); }
 			else if(x < 68){ o["op"] = "remove"; o["sid"] = (int)r.below(2); }
 			else if(x < 78){ o["op"] = "gc"; }
@@ -82,6 +82,11 @@ struct E7 : Engine {
 	static void do_load(Ctx &c,session_storage &st,const std::string &sid,const char *where){
 		time_t dl = 0; std::string out; bool ok = st.load(sid,dl,out);
 		SidModel &m = c.model[sid];
+		if(m.unsure){   // after a save that failed with a disk error: nothing, or a complete (value, deadline) pair that some save - the failed one included - wrote as a whole; then the state is known again
+			m.unsure = false; c.cnt["loads_after_failed_save"]++;
+			if(!ok){ m.present = false; if(simk::fs_exists(path_of(sid))) c.fail("unreadable-file-not-removed",std::string(where) + ": load(" + sid.substr(0,6) + ") failed but the file is still there"); return; }
+			for(auto &s:m.all) if(s.val == out && s.deadline == (int64_t)dl){ if((int64_t)dl < c.now()){ c.fail("stale-or-expired-session-loaded",std::string(where) + ": load returned a session whose deadline has passed"); return; } m.present = true; m.cur = s; return; }
+			c.fail("corrupted-session-after-disk-error",std::string(where) + ": after a save that failed with a disk error load returned " + show(out) + " deadline " + std::to_string((long)dl) + " which no save ever wrote as a whole"); return; }
 		bool want = m.present && m.cur.deadline >= c.now();
 		if(ok != want){ c.fail(ok ? "stale-or-expired-session-loaded" : "live-session-lost",std::string(where) + ": load(" + sid.substr(0,6) + ") returned " + (ok ? "a value (" + show(out) + ")" : "nothing") + " but the model says " + (want ? "live session " + show(m.cur.val) + " deadline +" + std::to_string((long)(m.cur.deadline-c.now())) : std::string(m.present ? "expired" : "absent"))); return; }
 		if(ok && (out != m.cur.val || (int64_t)dl != m.cur.deadline)){ c.fail("wrong-session-data",std::string(where) + ": load returned " + show(out) + " deadline " + std::to_string((long)dl) + " expected " + show(m.cur.val) + " deadline " + std::to_string((long)m.cur.deadline)); return; }
@@ -163,8 +168,12 @@ struct E7 : Engine {
 			for(size_t i=0;i<ops.size() && res.ok;i++){
 				const J &o = ops.a[i]; std::string op = o.gets("op"); std::string sid = sid_name((int)o.geti("sid")); std::string where = "op#" + std::to_string(i) + " " + op;
 				if(op == "save"){ Saved s; s.val = make_payload((int)o.geti("fill"),(int)o.geti("len"),(int)i,prev); s.deadline = c.now() + o.geti("dl"); prev = s.val;
-					try { st->save(sid,s.deadline,s.val); } catch(cppcms::cppcms_error const &e){ c.fail("save-failed",where + ": save threw " + e.what()); break; }
-					SidModel &m = c.model[sid]; m.present = true; m.cur = s; m.all.push_back(s); c.cnt["save"]++;
+					int disk = (int)o.geti("disk"); bool threw = false; if(disk) simk::arm_file_write_fault((int)std::max<int64_t>(0,std::min<int64_t>(o.geti("skip"),8)),disk == 1 ? ENOSPC : EIO);
+					try { st->save(sid,s.deadline,s.val); } catch(cppcms::cppcms_error const &e){ threw = true; if(!disk || !simk::stats().file_write_failed){ simk::disarm_file_write_fault(); c.fail("save-failed",where + ": save threw " + e.what()); break; } }
+					simk::disarm_file_write_fault();
+					SidModel &m = c.model[sid]; m.all.push_back(s);
+					if(threw){ m.unsure = true; c.cnt["saves_failed_by_disk_error"]++; do_load(c,*st,sid,(where + " (failed: disk error) then load").c_str()); continue; }   // the application saw the failure; what the file holds now is checked at once
+					m.present = true; m.cur = s; m.unsure = false; c.cnt["save"]++;
 					if(c.faults) do_load(c,*st,sid,(where + " then load").c_str());   // a completed save must be readable, also under short/interrupted I/O
 				}
 				else if(op == "load") do_load(c,*st,sid,where.c_str());
